@@ -3,8 +3,12 @@
 Extracted by AST pattern (anything unexpected raises => tie broken):
   QAM._createConstellation : the two coordinates passed to complex(..), the index
       expression of `symbols[...] = symbol`, the average-energy expression and the
-      final `symbols / math.sqrt(average_energy)`
+      final `symbols / math.sqrt(average_energy)`; a construction WITHOUT loops (np.arange / tile / repeat /
+      meshgrid / reshape / broadcasting into `.real` / `.imag`) is evaluated symbolically (class QamVec) to the
+      element at flat index `ii * L + jj`, its shape requirements being emitted as `qamShapeOk`
   PSK._createConstellation : the phase expression, cos/sin parts and `realPart + 1j*imagPart`
+      (the parts may be spelled `np.exp(1j * phases).real/.imag`; snapping of values below 1e-15 to 0, by
+      masked assignment or `np.where`, is recognised and left out as before)
   BPSK.__init__            : the literal constellation `np.array([1, -1])`
 """
 import ast
@@ -12,6 +16,7 @@ import os
 
 from harness.translate import HEADER, TranslateError, find_fn, parse_file, strip_doc
 from harness.gen.c16 import lit
+from harness.gen import norm
 
 
 def int_expr(e, names):
@@ -43,12 +48,9 @@ def real_expr(e, env):
     raise TranslateError('unsupported real expression ' + ast.unparse(e))
 
 
-def gen(repo):
-    fund = parse_file(os.path.join(repo, 'pyphysim/modulators/fundamental.py'))
+def qam_grid_loops(stmts):
+    """the two nested `for .. in range(0, L)` loops writing `symbols[<index>] = complex(<re>, <im>)`"""
     out = []
-    # ---- QAM grid
-    f = find_fn(fund, '_createConstellation', 'QAM')
-    stmts = strip_doc(f.body)
     loops = [s for s in stmts if isinstance(s, ast.For)]
     if len(loops) != 1 or ast.unparse(loops[0].iter) != 'range(0, L)':
         raise TranslateError('QAM grid: outer loop')
@@ -75,6 +77,378 @@ def gen(repo):
     out.append('def qamIm %s : Int := %s\n' % (sig, int_expr(a.value.args[1], names)))
     out.append('def qamIndex %s : Int := %s\n' % (sig, int_expr(b.targets[0].slice, names)))
     out.append('-- loop variables: outer `%s`, inner `%s`\n' % (vo, vi))
+    out.append('/-- shape obligations of a vectorised construction (none for the explicit loops) -/\n'
+               'def qamShapeOk (L : Int) : Prop := True\n')
+    return out
+
+
+class S:
+    """integer scalar: Lean text + its value as a function of L (used only to GUESS simplifications, which are
+    then emitted as proof obligations)"""
+
+    def __init__(self, text, fn):
+        self.text, self.fn = text, fn
+
+
+class V1:
+    def __init__(self, n, f):
+        self.n, self.f = n, f          # length (S), element function: Lean index text -> Lean value text
+
+
+class V2:
+    def __init__(self, r, c, f):
+        self.r, self.c, self.f = r, c, f   # shape (S, S), element function of two index texts
+
+
+class Buf:
+    def __init__(self, shape):
+        self.shape, self.re, self.im = shape, None, None
+
+
+class QamVec:
+    """Symbolic evaluation of a vectorised QAM._createConstellation (numpy on small integer arrays).
+
+    Arrays are (shape, element function) pairs over Lean `Int` terms in `L`; `M` stands for `L * L` (the
+    documented precondition: M is a perfect square, L its root).  numpy semantics used (the trusted part, as
+    the list idioms of the C02 plugin):
+      np.arange(a, b, s), s a positive literal : element k is a + k*s, length ceil((b - a) / s) for a <= b
+      np.arange(n) / np.arange(0, n[, dtype=int]) : element k is k, length n
+      scalar (+ - *) array, array (+ - *) scalar, -array : elementwise
+      v[::-1]                 : element k is v[n - 1 - k]
+      v.reshape(1, n) / v.reshape(n, 1) / w.reshape(r * c) : row-major, same number of elements
+      np.tile(v, k)           : element p is v[p % n], length n * k
+      np.repeat(v, k)         : element p is v[p / k], length n * k
+      np.meshgrid(x, y)       : both of shape (len y, len x); X[i, j] = x[j], Y[i, j] = y[i]
+      buf = np.empty(shape, dtype=complex); buf.real = E; buf.imag = E : E is broadcast to the shape of buf
+                                (a dimension written as the literal 1 is stretched, any other must be equal)
+    Every size equality the code relies on, and every simplification of a length (guessed from its values for
+    L = 1..8), is EMITTED as a conjunct of `qamShapeOk L` and proved in Lean for all L >= 1
+    (`generated_constellation_matches_model`); nothing is simplified on trust."""
+
+    def __init__(self):
+        self.env = {}
+        self.obl = []              # (lhs text, relation, rhs text)
+
+    # ---- scalars
+    def sc(self, e):
+        if isinstance(e, ast.Name) and e.id == 'L':
+            return S('L', lambda L: L)
+        if isinstance(e, ast.Name) and e.id == 'M':
+            return S('(L * L)', lambda L: L * L)
+        if isinstance(e, ast.Name) and isinstance(self.env.get(e.id), S):
+            return self.env[e.id]
+        if isinstance(e, ast.Constant) and isinstance(e.value, int) and not isinstance(e.value, bool):
+            v = e.value
+            return S('(%d : Int)' % v, lambda L: v)
+        if isinstance(e, ast.UnaryOp) and isinstance(e.op, ast.USub):
+            a = self.sc(e.operand)
+            return S('(-%s)' % a.text, lambda L: -a.fn(L))
+        if isinstance(e, ast.BinOp) and type(e.op) in (ast.Add, ast.Sub, ast.Mult):
+            a, b = self.sc(e.left), self.sc(e.right)
+            if isinstance(e.op, ast.Pow):
+                raise TranslateError('power')
+            op, fn = {ast.Add: ('+', lambda x, y: x + y), ast.Sub: ('-', lambda x, y: x - y),
+                      ast.Mult: ('*', lambda x, y: x * y)}[type(e.op)]
+            return S('(%s %s %s)' % (a.text, op, b.text), lambda L: fn(a.fn(L), b.fn(L)))
+        if isinstance(e, ast.BinOp) and isinstance(e.op, ast.Pow) and isinstance(e.right, ast.Constant) and e.right.value == 2:
+            a = self.sc(e.left)
+            return S('(%s * %s)' % (a.text, a.text), lambda L: a.fn(L) ** 2)
+        raise TranslateError('QAM grid (vectorised): unsupported integer expression ' + ast.unparse(e)[:60])
+
+    def is_scalar(self, e):
+        try:
+            self.sc(e)
+            return True
+        except TranslateError:
+            return False
+
+    def simplify(self, s, extra=None):
+        """a linear form c1*L + c0 taking the same values for L = 1..8, with the equality as an obligation"""
+        vals = [s.fn(L) for L in range(1, 9)]
+        c1 = vals[1] - vals[0]
+        c0 = vals[0] - c1
+        if any(v != c1 * L + c0 for L, v in zip(range(1, 9), vals)) or c1 < 0:
+            return s
+        if (c1, c0) == (1, 0):
+            t = S('L', lambda L: L)
+        elif c1 == 0:
+            t = S('(%d : Int)' % c0, lambda L: c0) if c0 >= 0 else s
+        else:
+            t = S('(((%d : Int) * L) + (%d : Int))' % (c1, c0), lambda L: c1 * L + c0) if c0 >= 0 else s
+        if t is not s and t.text != s.text:
+            self.obl.append((s.text, '=', t.text))
+        return t
+
+    def same(self, a, b, what):
+        if a.text != b.text:
+            if any(a.fn(L) != b.fn(L) for L in range(1, 9)):
+                raise TranslateError('QAM grid (vectorised): %s: sizes differ' % what)
+            self.obl.append((a.text, '=', b.text))
+
+    # ---- arrays
+    def ev(self, e):
+        if isinstance(e, ast.Name) and e.id in self.env:
+            return self.env[e.id]
+        if isinstance(e, ast.UnaryOp) and isinstance(e.op, ast.USub) and not self.is_scalar(e):
+            v = self.ev(e.operand)
+            return self.map(v, lambda t: '(-%s)' % t)
+        if isinstance(e, ast.BinOp) and type(e.op) in (ast.Add, ast.Sub, ast.Mult) and not self.is_scalar(e):
+            op = {ast.Add: '+', ast.Sub: '-', ast.Mult: '*'}[type(e.op)]
+            if self.is_scalar(e.left):
+                a, v = self.sc(e.left), self.ev(e.right)
+                return self.map(v, lambda t: '(%s %s %s)' % (a.text, op, t))
+            if self.is_scalar(e.right):
+                v, a = self.ev(e.left), self.sc(e.right)
+                return self.map(v, lambda t: '(%s %s %s)' % (t, op, a.text))
+            raise TranslateError('QAM grid (vectorised): array (op) array')
+        if isinstance(e, ast.Subscript) and isinstance(e.slice, ast.Slice) and e.slice.lower is None \
+                and e.slice.upper is None and ast.unparse(e.slice.step or ast.Constant(1)) == '-1':
+            v = self.ev(e.value)
+            if not isinstance(v, V1):
+                raise TranslateError('QAM grid (vectorised): [::-1] of a non-vector')
+            return V1(v.n, lambda k, v=v: v.f('((%s - (1 : Int)) - %s)' % (v.n.text, k)))
+        if isinstance(e, ast.Call):
+            f = e.func
+            kws = {k.arg: k.value for k in e.keywords}
+            if _is_np(f, 'arange'):
+                if set(kws) - {'dtype'} or ('dtype' in kws and ast.unparse(kws['dtype']) != 'int') or not 1 <= len(e.args) <= 3:
+                    raise TranslateError('QAM grid (vectorised): np.arange form')
+                a = self.sc(e.args[0]) if len(e.args) > 1 else S('(0 : Int)', lambda L: 0)
+                b = self.sc(e.args[1] if len(e.args) > 1 else e.args[0])
+                st = 1
+                if len(e.args) == 3:
+                    if not (isinstance(e.args[2], ast.Constant) and isinstance(e.args[2].value, int)
+                            and not isinstance(e.args[2].value, bool) and e.args[2].value > 0):
+                        raise TranslateError('QAM grid (vectorised): np.arange step must be a positive literal')
+                    st = e.args[2].value
+                if any(a.fn(L) > b.fn(L) for L in range(1, 9)):
+                    raise TranslateError('QAM grid (vectorised): np.arange with start > stop')
+                if a.text != '(0 : Int)':
+                    self.obl.append((a.text, '≤', b.text))
+                else:
+                    self.obl.append(('(0 : Int)', '≤', b.text))
+                n = S('(((%s - %s) + (%d : Int)) / (%d : Int))' % (b.text, a.text, st - 1, st),
+                      lambda L: -((a.fn(L) - b.fn(L)) // st))
+                n = self.simplify(n)
+                if a.text == '(0 : Int)' and st == 1:
+                    return V1(n, lambda k: k)
+                return V1(n, lambda k: '(%s + (%s * (%d : Int)))' % (a.text, k, st))
+            if _is_np(f, 'empty'):
+                if ast.unparse(kws.get('dtype', ast.Name(id='float'))) != 'complex' or set(kws) != {'dtype'} or len(e.args) != 1:
+                    raise TranslateError('QAM grid (vectorised): np.empty form')
+                sh = e.args[0]
+                if isinstance(sh, (ast.List, ast.Tuple)):
+                    if len(sh.elts) != 2:
+                        raise TranslateError('QAM grid (vectorised): buffer rank')
+                    return Buf(tuple(self.sc(x) for x in sh.elts))
+                return Buf((self.sc(sh),))
+            if (_is_np(f, 'tile') or _is_np(f, 'repeat')) and len(e.args) == 2 and not kws:
+                v, k = self.ev(e.args[0]), self.sc(e.args[1])
+                if not isinstance(v, V1):
+                    raise TranslateError('QAM grid (vectorised): tile / repeat of a non-vector')
+                n = S('(%s * %s)' % (v.n.text, k.text), lambda L: v.n.fn(L) * k.fn(L))
+                if f.attr == 'tile':
+                    return V1(n, lambda p, v=v: v.f('(%s %% %s)' % (p, v.n.text)))
+                return V1(n, lambda p, v=v, k=k: v.f('(%s / %s)' % (p, k.text)))
+            if isinstance(f, ast.Attribute) and f.attr == 'reshape' and not kws:
+                v = self.ev(f.value)
+                args = e.args[0].elts if len(e.args) == 1 and isinstance(e.args[0], (ast.Tuple, ast.List)) else e.args
+                dims = [self.sc(x) for x in args]
+                if isinstance(v, Buf):
+                    if v.re is None or v.im is None:
+                        raise TranslateError('QAM grid (vectorised): reshape of a partly filled buffer')
+                    if len(v.shape) != 2 or len(dims) != 1:
+                        raise TranslateError('QAM grid (vectorised): buffer reshape form')
+                    out = Buf((dims[0],))
+                    out.re, out.im = self.reshape(v.re, dims), self.reshape(v.im, dims)
+                    return out
+                return self.reshape(v, dims)
+        raise TranslateError('QAM grid (vectorised): unsupported expression ' + ast.unparse(e)[:60])
+
+    def map(self, v, g):
+        if isinstance(v, V1):
+            return V1(v.n, lambda k, v=v: g(v.f(k)))
+        if isinstance(v, V2):
+            return V2(v.r, v.c, lambda i, j, v=v: g(v.f(i, j)))
+        raise TranslateError('QAM grid (vectorised): elementwise operation on a non-array')
+
+    def reshape(self, v, dims):
+        if isinstance(v, V1) and len(dims) == 2:
+            one = [d.text == '(1 : Int)' for d in dims]
+            if one == [True, False]:
+                self.same(v.n, dims[1], 'reshape(1, n)')
+                return V2(dims[0], dims[1], lambda i, j, v=v: v.f(j))
+            if one == [False, True]:
+                self.same(v.n, dims[0], 'reshape(n, 1)')
+                return V2(dims[0], dims[1], lambda i, j, v=v: v.f(i))
+        if isinstance(v, V2) and len(dims) == 1:
+            self.same(S('(%s * %s)' % (v.r.text, v.c.text), lambda L: v.r.fn(L) * v.c.fn(L)), dims[0], 'reshape(r * c)')
+            return V1(dims[0], lambda p, v=v: v.f('(%s / %s)' % (p, v.c.text), '(%s %% %s)' % (p, v.c.text)))
+        raise TranslateError('QAM grid (vectorised): unsupported reshape')
+
+    def broadcast(self, v, shape, what):
+        if len(shape) == 1:
+            if not isinstance(v, V1):
+                raise TranslateError('QAM grid (vectorised): %s: a vector is expected' % what)
+            self.same(v.n, shape[0], what)
+            return v
+        if isinstance(v, V2):
+            fi = (lambda i: '(0 : Int)') if v.r.text == '(1 : Int)' else (lambda i: i)
+            fj = (lambda j: '(0 : Int)') if v.c.text == '(1 : Int)' else (lambda j: j)
+            if v.r.text != '(1 : Int)':
+                self.same(v.r, shape[0], what)
+            if v.c.text != '(1 : Int)':
+                self.same(v.c, shape[1], what)
+            # (a stretched dimension has one element; its element function ignores that index)
+            return V2(shape[0], shape[1], lambda i, j, v=v: v.f(fi(i), fj(j)))
+        raise TranslateError('QAM grid (vectorised): %s: unsupported broadcast' % what)
+
+    def run(self, stmts):
+        for st in stmts:
+            if not (isinstance(st, ast.Assign) and len(st.targets) == 1):
+                raise TranslateError('QAM grid (vectorised): unsupported statement ' + ast.unparse(st)[:60])
+            t = st.targets[0]
+            if isinstance(t, ast.Name) and t.id == 'L':
+                if ast.unparse(st.value) != 'int(round(math.sqrt(M)))':
+                    raise TranslateError('QAM grid: L')
+                continue
+            if isinstance(t, ast.Name):
+                if t.id in ('M', 'L'):
+                    raise TranslateError('QAM grid (vectorised): M / L rebound')
+                self.env[t.id] = self.sc(st.value) if self.is_scalar(st.value) else self.ev(st.value)
+                continue
+            if isinstance(t, ast.Tuple) and len(t.elts) == 2 and all(isinstance(x, ast.Name) for x in t.elts) \
+                    and isinstance(st.value, ast.Call) and _is_np(st.value.func, 'meshgrid') and len(st.value.args) == 2 \
+                    and not st.value.keywords:
+                x, y = self.ev(st.value.args[0]), self.ev(st.value.args[1])
+                if not (isinstance(x, V1) and isinstance(y, V1)):
+                    raise TranslateError('QAM grid (vectorised): meshgrid of non-vectors')
+                self.env[t.elts[0].id] = V2(y.n, x.n, lambda i, j, x=x: x.f(j))
+                self.env[t.elts[1].id] = V2(y.n, x.n, lambda i, j, y=y: y.f(i))
+                continue
+            if isinstance(t, ast.Attribute) and t.attr in ('real', 'imag') and isinstance(t.value, ast.Name) \
+                    and isinstance(self.env.get(t.value.id), Buf):
+                buf = self.env[t.value.id]
+                v = self.broadcast(self.ev(st.value), buf.shape, '%s.%s = ...' % (t.value.id, t.attr))
+                if t.attr == 'real':
+                    buf.re = v
+                else:
+                    buf.im = v
+                continue
+            raise TranslateError('QAM grid (vectorised): unsupported statement ' + ast.unparse(st)[:60])
+
+
+def qam_grid_vectorised(stmts):
+    """QAM._createConstellation without explicit loops: the element stored at flat index `ii * L + jj`"""
+    k = [i for i, s in enumerate(stmts) if isinstance(s, ast.Assign) and ast.unparse(s.targets[0]) == 'average_energy']
+    if len(k) != 1:
+        raise TranslateError('QAM grid: average_energy')
+    q = QamVec()
+    q.run(stmts[:k[0]])
+    sym = q.env.get('symbols')
+    if not (isinstance(sym, Buf) and len(sym.shape) == 1 and sym.re is not None and sym.im is not None):
+        raise TranslateError('QAM grid (vectorised): `symbols` is not a completely filled 1-D complex buffer')
+    q.same(sym.shape[0], S('(L * L)', lambda L: L * L), 'number of symbols')
+    p = '((ii * L) + jj)'
+    sig = '(L jj ii : Int)'
+    obl = ' ∧ '.join('(%s %s %s)' % o for o in q.obl)
+    return ['def qamRe %s : Int := %s\n' % (sig, sym.re.f(p)),
+            'def qamIm %s : Int := %s\n' % (sig, sym.im.f(p)),
+            'def qamIndex %s : Int := %s\n' % (sig, p),
+            '-- vectorised construction: the element at flat (row-major) index `ii * L + jj`\n',
+            '/-- shape obligations of the vectorised construction: every size equality numpy needs, and every\n'
+            '    simplification of a length the translator used -/\n'
+            'def qamShapeOk (L : Int) : Prop := %s\n' % (obl + ' ∧ True' if obl else 'True')]
+
+
+def _is_np(e, name):
+    return isinstance(e, ast.Attribute) and e.attr == name and isinstance(e.value, ast.Name) and e.value.id == 'np'
+
+
+def _is_abs_of(e, what):
+    return (isinstance(e, ast.Call) and len(e.args) == 1 and not e.keywords
+            and ((isinstance(e.func, ast.Name) and e.func.id == 'abs') or _is_np(e.func, 'abs'))
+            and ast.unparse(e.args[0]) == what)
+
+
+def _small(e):
+    return isinstance(e, ast.Constant) and isinstance(e.value, float) and 0 < e.value <= 1e-12
+
+
+def _zero(e):
+    return isinstance(e, ast.Constant) and not isinstance(e.value, bool) and e.value in (0, 0.0)
+
+
+def psk_check_parts(stmts, phases):
+    """PSK._createConstellation must return `cos(phases) + 1j * sin(phases)` (each part possibly with values below
+    a tiny threshold snapped to 0, which the model abstracts: `v[abs(v) < eps] = 0` or `np.where(abs(v) < eps, 0, v)`).
+    The locals are substituted in order; `np.exp(1j * x).real` / `.imag` are `cos x` / `sin x` (Euler's formula,
+    x real)."""
+    env = {}
+    for st in stmts[:-1]:
+        if isinstance(st, ast.Assign) and len(st.targets) == 1 and isinstance(st.targets[0], ast.Name):
+            env[st.targets[0].id] = norm.subst(st.value, env)
+            continue
+        if (isinstance(st, ast.Assign) and len(st.targets) == 1 and isinstance(st.targets[0], ast.Subscript)
+                and isinstance(st.targets[0].value, ast.Name) and st.targets[0].value.id in env and _zero(st.value)):
+            v = st.targets[0].value.id
+            m = st.targets[0].slice
+            if isinstance(m, ast.Compare) and len(m.ops) == 1 and isinstance(m.ops[0], ast.Lt) and _is_abs_of(m.left, v) \
+                    and _small(m.comparators[0]):
+                continue                        # snap-to-zero of tiny values: not part of the model
+        if isinstance(st, ast.Assert):
+            continue
+        raise TranslateError('PSK: unsupported statement ' + ast.unparse(st)[:80])
+    ret = stmts[-1]
+    if not (isinstance(ret, ast.Return) and ret.value is not None):
+        raise TranslateError('PSK: no return value')
+    e = norm.subst(ret.value, env)
+
+    def unsnap(x):
+        # np.where(abs(X) < eps, 0, X) -> X
+        while (isinstance(x, ast.Call) and _is_np(x.func, 'where') and len(x.args) == 3 and not x.keywords
+               and _zero(x.args[1]) and isinstance(x.args[0], ast.Compare) and len(x.args[0].ops) == 1
+               and isinstance(x.args[0].ops[0], ast.Lt) and _small(x.args[0].comparators[0])
+               and _is_abs_of(x.args[0].left, ast.unparse(x.args[2]))):
+            x = x.args[2]
+        return x
+
+    def trig(x):
+        x = unsnap(x)
+        if isinstance(x, ast.Call) and len(x.args) == 1 and not x.keywords and (_is_np(x.func, 'cos') or _is_np(x.func, 'sin')):
+            return x.func.attr, ast.unparse(x.args[0])
+        if isinstance(x, ast.Attribute) and x.attr in ('real', 'imag') and isinstance(x.value, ast.Call) \
+                and _is_np(x.value.func, 'exp') and len(x.value.args) == 1 and not x.value.keywords:
+            a = x.value.args[0]
+            if isinstance(a, ast.BinOp) and isinstance(a.op, ast.Mult):
+                for j, th in ((a.left, a.right), (a.right, a.left)):
+                    if isinstance(j, ast.Constant) and j.value == 1j:
+                        return ('cos' if x.attr == 'real' else 'sin'), ast.unparse(th)
+        raise TranslateError('PSK: a coordinate is not cos / sin of the phases: ' + ast.unparse(x)[:80])
+
+    want = ast.unparse(norm.subst(phases, {}))
+    if not (isinstance(e, ast.BinOp) and isinstance(e.op, ast.Add) and isinstance(e.right, ast.BinOp)
+            and isinstance(e.right.op, ast.Mult)):
+        raise TranslateError('PSK: the result is not `real + 1j * imag`')
+    j, im = e.right.left, e.right.right
+    if not (isinstance(j, ast.Constant) and j.value == 1j):
+        j, im = im, j
+    if not (isinstance(j, ast.Constant) and j.value == 1j):
+        raise TranslateError('PSK: the result is not `real + 1j * imag`')
+    if trig(e.left) != ('cos', want) or trig(im) != ('sin', want):
+        raise TranslateError('PSK: the result is not `cos(phases) + 1j * sin(phases)`')
+
+
+def gen(repo):
+    fund = parse_file(os.path.join(repo, 'pyphysim/modulators/fundamental.py'))
+    out = []
+    # ---- QAM grid
+    f = find_fn(fund, '_createConstellation', 'QAM')
+    stmts = strip_doc(f.body)
+    if any(isinstance(s, ast.For) for s in stmts):
+        out += qam_grid_loops(stmts)
+    else:
+        out += qam_grid_vectorised(stmts)
     lsrc = [s for s in stmts if isinstance(s, ast.Assign) and ast.unparse(s.targets[0]) == 'L']
     if not lsrc or ast.unparse(lsrc[0].value) != 'int(round(math.sqrt(M)))':
         raise TranslateError('QAM grid: L')
@@ -95,9 +469,7 @@ def gen(repo):
     cls2 = '{α : Type} [Add α] [Mul α] [Div α] [NatCast α] [Trig α]'
     out.append('def pskPhase %s (M k : Nat) (phaseOffset : α) : α :=\n  let M : α := (M : α)\n  %s\n'
                % (cls2, real_expr(ph[0].value, {'M': 'M', 'phaseOffset': 'phaseOffset'})))
-    for need in ('realPart = np.cos(phases)', 'imagPart = np.sin(phases)', 'return realPart + 1j * imagPart'):
-        if need not in src:
-            raise TranslateError('PSK: missing `%s`' % need)
+    psk_check_parts(stmts, ph[0].value)
     # ---- BPSK literal
     f = find_fn(fund, '__init__', 'BPSK')
     calls = [s for s in strip_doc(f.body) if 'setConstellation' in ast.unparse(s)]
